@@ -385,6 +385,9 @@ func (in *Interp) reportPanic(p *goPanic) {
 		}
 		f.Inputs = in.modelInputs()
 		f.Decisions = append([]Decision{}, in.taken...)
+		for _, o := range in.observes {
+			f.Observed = append(f.Observed, Observed{o.name, in.evalObserved(o.val)})
+		}
 		in.W.addFailure(f)
 	}
 }
